@@ -32,3 +32,31 @@ Example C07_mjpeg_example : (* the first image loses its first packet; the secon
   | _, _ => False
   end.
 Proof. vm_compute. reflexivity. Qed.
+
+(* ---- the translated kernels (tools/go2coq, regenerated from the Go source on every run) ----
+   The fragment-offset formulas of rtpmjpeg - h.FragmentOffset = uint32(byts[1])<<16 | uint32(byts[2])<<8 |
+   uint32(byts[3]) (header_jpeg.go), jh.FragmentOffset == 0, int(jh.FragmentOffset) != d.fragmentsSize,
+   d.fragmentsSize += len(byts) (decoder.go) - ARE the formulas of Model.jhdr_unmarshal / dec:
+   o2*65536 + o1*256 + o0, off =? 0, negb (off =? dfsize d), dfsize d + nlen byts. *)
+From Coq Require Import ZArith.
+From GVG Require Import Kern.
+From GV_mjpeg Require Import BridgeLib Bridge.
+Open Scope Z_scope.
+
+Theorem C07_mjpeg_kernels_are_the_code : forall (o2 o1 o0 off fs : N) (byts : bytes),
+  byte o2 -> byte o1 -> byte o0 -> u32 off -> Z.of_N (fs + nlen byts) < i64max ->
+  k_mjpeg_jh_fragoff (Z.of_N o2) (Z.of_N o1) (Z.of_N o0) = Z.of_N (o2 * 65536 + o1 * 256 + o0) /\
+  k_mjpeg_dec_first (Z.of_N off) = (off =? 0)%N /\
+  k_mjpeg_dec_wrongoff (Z.of_N off) (Z.of_N fs) = negb (off =? fs)%N /\
+  k_mjpeg_dec_acc (Z.of_N fs) (Z.of_N (nlen byts)) = Z.of_N (fs + nlen byts).
+Proof. exact resync_kernels_are_the_code. Qed.
+Print Assumptions C07_mjpeg_kernels_are_the_code.
+
+(* 12 34 56 is offset 0x123456; offset 0 starts an image, 1 does not; offset 1302 continues 1302 collected bytes, 1301
+   and 1303 do not *)
+Example C07_mjpeg_example_kernels :
+  k_mjpeg_jh_fragoff 18 52 86 = 1193046 /\ k_mjpeg_jh_fragoff 255 255 255 = 16777215 /\
+  k_mjpeg_dec_first 0 = true /\ k_mjpeg_dec_first 1 = false /\
+  k_mjpeg_dec_wrongoff 1302 1302 = false /\ k_mjpeg_dec_wrongoff 1301 1302 = true /\
+  k_mjpeg_dec_wrongoff 1303 1302 = true /\ k_mjpeg_dec_acc 1302 1442 = 2744.
+Proof. vm_compute. repeat split. Qed.
